@@ -134,7 +134,42 @@ class Materialised:
     def grammar(self):
         from geneticengine.grammar.grammar import extract_grammar
 
-        return extract_grammar(self.considered(), self.start(), self.spec.get("expansion", False))
+        g = extract_grammar(self.considered(), self.start(), self.spec.get("expansion", False))
+        sib = self.spec.get("sibling")
+        if sib:
+            self.extract_sibling(*sib)
+        return g
+
+    def extract_sibling(self, k, drop, s, flip=False):
+        """A disturbance, not an operation under test: another grammar is extracted in the same
+        process from (a subset of) the same classes - one considered class left out and/or another
+        starting symbol and/or the other depth-counting mode - and analysed. extract_grammar is
+        documented to rewrite the class-level weights; that is not an effect any property forbids,
+        so the classes' __gengy__ records are put back afterwards. Whatever it raises is ignored."""
+        import copy
+
+        from geneticengine.grammar.grammar import extract_grammar
+
+        cons = self.considered()
+        dropc = cons[k % len(cons)] if cons else None
+        sub = [c for c in cons if c is not dropc] if drop else cons
+        allc = [c for c in self.classes.values() if isinstance(c, type)]
+        start = allc[s % len(allc)] if s is not None and allc else self.start()
+        exp = bool(self.spec.get("expansion", False)) != bool(flip)
+        saved = [(c, copy.deepcopy(c.__dict__.get("__gengy__"))) for c in allc]
+        try:
+            g2 = extract_grammar(sub, start, exp)
+            g2.get_min_tree_depth()
+            g2.usable_grammar()
+        except Exception:  # noqa: BLE001
+            pass
+        finally:
+            for c, gy in saved:
+                if gy is None:
+                    if "__gengy__" in c.__dict__:
+                        delattr(c, "__gengy__")
+                else:
+                    setattr(c, "__gengy__", gy)
 
     def cleanup(self):
         sys.modules.pop(self.module.__name__, None)
@@ -392,6 +427,7 @@ class Flags:
         expansion=False,
         max_list_size=3,
         permute_considered=True,
+        sibling=True,
         listops=True,  # ListSizeBetween (with custom mutate/crossover) vs LSBWLO only
         nested_generics=True,  # list[Union[..]], list[tuple[..]]
         self_refs=True,  # Union[Self, other]
@@ -730,6 +766,9 @@ def specs(draw, fl: Flags | None = None):
         keep = set(considered)
         spec["abstracts"] = [a for a in abstracts if a["name"] in keep]
         spec["concretes"] = [c for c in concretes if c["name"] in keep]
+    if fl.sibling and draw(st.integers(0, 3)) == 0:
+        # a second grammar extracted from (a subset of) the same classes right after the first
+        spec["sibling"] = [draw(st.integers(0, 12)), draw(st.booleans()), draw(st.one_of(st.none(), st.integers(0, 12))), draw(st.integers(0, 3)) == 0]
     return spec
 
 
